@@ -298,6 +298,10 @@ def fixed_sm(tier):
         out.append(c)
     # open notification (empty STREAM frame) lost and retransmitted after the stream was reset
     out.append([0, 1000, 0, 0, 1000, 5, 0, 1200, 0, 0, 3, 0, 7, 5, 0, 1200, 0, 0, 7, 0, 0, 5, 0, 1200, 0, 0])
+    # the newest stream is reset / stopped before the first transmission opportunity
+    for n in (1, 2, 3):
+        out.append([0, 1000, n - 1, 0] + [1000] * n + [3, n - 1, 7, 5, 0, 1200, 0, 0, 5, 0, 1200, 0, 0])
+        out.append([0, 1000, n - 1, 0] + [1000] * n + [1, n - 1, 10, 4, n - 1, 7, 5, 0, 1200, 0, 0, 5, 0, 1200, 0, 0])
     return out
 
 
@@ -309,6 +313,7 @@ def monitor12(case, out, exempt_open_notify=False):
     hi = [0] * n
     fin = [None] * n
     rst = [False] * n
+    notified = [False] * n      # an open notification (empty FIN-less STREAM frame at offset 0) was sent before
     exempted = 0
 
     def payload(k, o):
@@ -329,9 +334,13 @@ def monitor12(case, out, exempt_open_notify=False):
             k = f["sid"] // 4
             if f["kind"] == 1:
                 e = f["val"] + len(f["data"])
-                if exempt_open_notify and rst[k] and not f["data"] and f["val"] == 0 and not f["fin"]:
+                is_notify = (not f["data"]) and f["val"] == 0 and not f["fin"]
+                if exempt_open_notify and rst[k] and is_notify and notified[k]:
+                    # the known class: a *re*transmission of the open notification after the reset
                     exempted += 1
                     continue
+                if is_notify:
+                    notified[k] = True
                 if rst[k] or e > w[k]:
                     return False, exempted
                 if any(b != payload(k, f["val"] + i) for i, b in enumerate(f["data"])):
